@@ -1,11 +1,28 @@
 """C11 - a query means what its text says: literals, variables and calls compose."""
+Q = "aw_query.query2."
 PROP = dict(
     id="C11",
     level="other",
-    contract_modules=["contracts.models"],
-    spec_modules=["contracts.models"],
-    functions=[],
+    contract_modules=["contracts.models", "contracts.query"],
+    spec_modules=["contracts.query"],
+    functions=[dict(fn=Q + "QInteger.check", rt_skip=True),
+               dict(fn=Q + "QVariable.check", rt_skip=True),
+               dict(fn=Q + "QString.check", rt_skip=True),
+               dict(fn=Q + "QFunction.check", rt_skip=True),
+               dict(fn=Q + "QDict.check", rt_skip=True),
+               dict(fn=Q + "QList.check", rt_skip=True),
+               dict(fn=Q + "_parse_token", rt_skip=True)],
+    timeout_s=20,
     extra=[lambda run: run.query_mode("c11", n=(400 if run.tier == "quick" else 8000))],
-    technique="run-time check of the real code (bounded); contract-based proof is layered on top where built",
-    explanation="bounded: programs generated from the grammar (nested calls/lists/dicts as any argument, 0-3 arguments, rebinding, strings containing brackets, commas, quotes and '=') are evaluated by aw_query.query and by an independent recursive-descent reference parser/evaluator over the same built-ins; results must be equal, also after re-spacing around commas, colons, '=' and ';'.",
+    technique="run-time check of the real code (bounded); with the scanners proved lossless against contracts",
+    explanation="deductive (scanning is lossless): each of the six scanners returns (token, remainder) with token + remainder == input, and _parse_token returns a non-empty token of one of the six kinds and a remainder that together are exactly the stripped input - no character between tokens is dropped (the defect repaired in 0bc9d3c was exactly a dropped character after a bracketed token). That the parse functions build the value the text denotes, and the interpreter, are only bounded. " 
+                "bounded: programs generated from the grammar (nested calls/lists/dicts as any argument, 0-3 arguments, rebinding, strings containing brackets, commas, quotes and '=') are evaluated by aw_query.query and by an independent recursive-descent reference parser/evaluator over the same built-ins; results must be equal, also after re-spacing around commas, colons, '=' and ';'.",
 )
+
+F = "/repo/aw_query/query2.py"
+MUTANTS = [
+    (F, '        if to_consume != 0:\n            return None, string\n        return string[:i], string[i:]', '        if to_consume != 0:\n            return None, string\n        return string[:i], string[i + 1 :]', True),   # QFunction.check drops the character after the call
+    (F, '        return token, string[len(token) :]\n\n\nclass QVariable', '        return token, string[len(token) + 1 :]\n\n\nclass QVariable', True),   # QInteger.check drops a character
+    (F, '    string = string.strip()\n    if len(string) == 0:', '    string = string.strip()[0:]\n    if len(string) == 0:', False),   # same text
+    (F, '    for t in qtypes:\n        token, string = t.check(string)', '    for t in qtypes:\n        token, string = t.check(string[1:] if t is QVariable else string)', True),   # variable scanner skips a character
+]
